@@ -143,7 +143,9 @@ for n, tier in (("n1", "quick"), ("n2", "quick"), ("n3", "thorough")):
         K("h_tdigest::td_cdf_shape_" + n, tier, "cdf monotone on adjacent half-integer points (hence on the grid), in [0,1], 0 below min, 1 from max", n, mem_class_gb=6, timeout_s=1800),
         K("h_tdigest::td_roundtrip_" + n, tier, "|cdf(quantile(q)) - q| <= w_max/S (strictly increasing means)", n, mem_class_gb=6, timeout_s=1800),
     ]
-p["units"] += [K("h_tdigest::td_empty_reads", "quick", "empty digest: NaN / 0"),
+p["units"] += [K("h_tdigest::td_quantile_interior_any_f64", "quick", "interior interpolation between two singleton centroids at ARBITRARY finite f64 positions (any sign, up to f64::MAX apart): quantile finite, within [min,max] up to 2^-48 relative, monotone over q = 3/8, 4/8, 5/8", "2 centroids, any finite f64 means", mem_class_gb=8, timeout_s=1800,
+                 must_cover=["means_straddle_zero_far_apart", "equal_means"]),
+               K("h_tdigest::td_empty_reads", "quick", "empty digest: NaN / 0"),
                K("h_tdigest::td_repeatable_n1", "quick", "repeated reads return identical values and leave aggregates alone", "n1", mem_class_gb=6, timeout_s=1800),
                K("h_tdigest::td_repeatable_n2", "thorough", "repeated reads", "n2", mem_class_gb=6, timeout_s=3600)]
 # --------------------------------------------------------------------------- C16
@@ -414,10 +416,10 @@ for k in (1, 3):
     p["units"].append(K("h_reservoir::c05_gap_skipped_k%d" % k, "quick", "skipping phase, item below skip_until: nothing changes, no randomness consumed", "k=%d, i symbolic" % k))
 for nm in ("k1_i4", "k2_i8", "k2_i21", "k3_i100"):
     p["units"].append(K("h_reservoir::c05_gap_accepted_" + nm, "quick", "skipping phase, accepted item: slot drawn from k values; next gap is 0 / exactly 1 in the u bands where that holds for any libm", nm,
-                        must_cover=["next_item_accepted", "band_gap_one"], timeout_s=1800))
+                        must_cover=["next_item_accepted", "band_gap_one", "band_gap_two_or_more"], timeout_s=1800))
 for k in (1, 2):
     p["units"].append(K("h_reservoir::c05_switch_k%d" % k, "quick", "the item at the phase switch (i=4k) is not forced into the reservoir: both outcomes possible", "k=%d" % k,
-                        must_cover=["switch_item_can_be_skipped", "switch_item_can_be_kept"]))
+                        must_cover=["switch_item_can_be_skipped", "switch_item_can_be_kept", "band_gap_two_after_switch"]))
 
 # --------------------------------------------------------------------------- C07
 p = prop("C07", engine="kani",
